@@ -46,7 +46,7 @@ theorem C12_agrees_numbers (a b : Term) (ha : isNum a) (hb : isNum b) (oa : numO
   agrees_numbers a b ha hb oa ob fa fb
 
 example : isNum (.big true [0, 0, 0, 0, 0, 0, 0, 0, 1]) ∧ numOk (.big true [0, 0, 0, 0, 0, 0, 0, 0, 1]) ∧
-    numFin (.float 0x4340000000000001) := by simp [isNum, numOk, numFin, minDigits, finiteF, f64]
+    numFin (.float 0x4340000000000001) := by simp [isNum, numOk, numFin, minDigits, finiteBits, f64]
 
 /-- the general theorem: on well-formed terms the library's order IS Erlang's term order of the denoted values -/
 theorem C12_agrees (a b : Term) (wa : WFe a) (wb : WFe b) (sa : mapsSorted a) (sb : mapsSorted b) :
@@ -59,7 +59,7 @@ example : WFe (.tuple [.atom [0xe6, 0x97, 0xa5], .big true [0, 1], .float 0x3FF8
     .pid ⟨[97, 64, 104], 1, 2, 3, none⟩]) = true ∧
   mapsSorted (.tuple [.map [(.int 1, .float 0), (.float 0x3FF8000000000000, .nil), (.atom [97], .nil)]]) = true := by
   constructor
-  · simp [WFe, WFeL, WFeKV, validUtf8, utf8Decode, isCont, minDigits, finiteF, f64, bitsOk, keysExact, Term.den,
+  · simp [WFe, WFeL, WFeKV, validUtf8, utf8Decode, isCont, minDigits, finiteBits, f64, bitsOk, keysExact, Term.den,
       Value.noTie, fracF, F64.mant, F64.expo]
   · simp [mapsSorted, mapsSortedL, mapsSortedKV, adjSorted, Term.cmp, Term.norm, Term.cmpN, Term.rank, cmpIntFloat,
       natDigits_one]
